@@ -320,32 +320,29 @@ func run(r *report.Run, shard, nshards int, replayFile string) {
 		"SaleQuorum is a macro (three votes + end-blocker); vote interleavings are C02's subject; the skyway store apart from the last observed nonce is not hashed (attestation records are not read by the explored handlers)",
 	}
 
-	scns := e.scenarios()
+	jobs := e.jobs()
 	if replayFile != "" {
 		if shard == 0 {
-			e.replay(r, scns, replayFile)
+			e.replay(r, jobs, replayFile)
 		}
 		return
-	}
-	maxDepth := 4
-	if e.thorough {
-		maxDepth = 6
 	}
 	end := r.Deadline(150*time.Second, 24*time.Minute)
 	start := time.Now()
 	total := end.Sub(start)
 	var wsum, cum float64
-	for _, s := range scns {
-		wsum += s.weight
+	for _, j := range jobs {
+		wsum += j.weight
 	}
-	for _, s := range scns {
-		cum += s.weight
-		spec := e.spec(s, maxDepth+s.depthOff, shard, nshards)
+	for _, j := range jobs {
+		cum += j.weight
+		spec := e.spec(j, shard, nshards)
 		spec.Deadline = start.Add(time.Duration(float64(total) * cum / wsum))
+		e.al = j.al
 		res := explore.Run(r, spec)
 		if shard == 0 {
-			r.Extra["depth_completed/"+s.name] = float64(res.DepthCompleted)
-			r.Extra["depth_bound/"+s.name] = float64(spec.MaxDepth)
+			r.Extra["depth_completed/"+spec.Name] = float64(res.DepthCompleted)
+			r.Extra["depth_bound/"+spec.Name] = float64(spec.MaxDepth)
 		}
 	}
 	for k, v := range e.cnt {
@@ -353,12 +350,47 @@ func run(r *report.Run, shard, nshards int, replayFile string) {
 	}
 }
 
-func (e *env) spec(s scenario, depth, shard, nshards int) explore.Spec {
-	return explore.Spec{Name: s.name, Init: []*explore.Node{s.node}, Ops: e.ops, Hash: e.hash, Invariant: e.invariant,
-		MaxDepth: depth, ShardDepth: 2, Shard: shard, NShards: nshards}
+type job struct {
+	scn    scenario
+	al     alphabet
+	depth  int
+	weight float64
 }
 
-func (e *env) replay(r *report.Run, scns []scenario, file string) {
+// jobs lists the searches of this tier: (base state, alphabet, depth bound).
+// Searches that complete come first, the deadline-capped deep ones last.
+func (e *env) jobs() []job {
+	sc := map[string]scenario{}
+	for _, s := range e.scenarios() {
+		sc[s.name] = s
+	}
+	full, red := fullAlphabet(), reducedAlphabet()
+	const (
+		A  = "configured/F1-poor-F2-rich"
+		B  = "configured/exactly-enough"
+		C  = "no-feegranter/rich"
+		E  = "configured/no-balance"
+		A2 = "configured/F1-rich-F2-poor"
+	)
+	if !e.thorough {
+		return []job{
+			{sc[E], red, 4, 1}, {sc[C], red, 3, 2}, {sc[B], red, 4, 5}, {sc[A], red, 4, 7},
+			{sc[A], full, 3, 5},
+		}
+	}
+	return []job{
+		{sc[E], full, 4, 1}, {sc[C], full, 3, 2}, {sc[B], full, 3, 2}, {sc[A], full, 4, 10},
+		{sc[E], red, 6, 1}, {sc[C], red, 5, 4}, {sc[A2], red, 5, 4},
+		{sc[B], red, 6, 10}, {sc[A], red, 6, 16},
+	}
+}
+
+func (e *env) spec(j job, shard, nshards int) explore.Spec {
+	return explore.Spec{Name: j.scn.name + "#" + j.al.name, Init: []*explore.Node{j.scn.node}, Ops: e.ops, Hash: e.hash, Invariant: e.invariant,
+		MaxDepth: j.depth, ShardDepth: 2, Shard: shard, NShards: nshards}
+}
+
+func (e *env) replay(r *report.Run, jobs []job, file string) {
 	var v report.Violation
 	b, err := os.ReadFile(file)
 	if err == nil {
@@ -376,13 +408,21 @@ func (e *env) replay(r *report.Run, scns []scenario, file string) {
 		}
 	}
 	name, _ := m["scenario"].(string)
-	for _, s := range scns {
-		if s.name != name {
+	parts := strings.SplitN(name, "#", 2)
+	for _, s := range e.scenarios() {
+		if s.name != parts[0] {
 			continue
 		}
-		spec := e.spec(s, len(path), 0, 1)
+		e.al = reducedAlphabet()
+		if len(parts) > 1 && parts[1] == "full" {
+			e.al = fullAlphabet()
+		}
+		spec := e.spec(job{scn: s, al: e.al, depth: len(path)}, 0, 1)
 		if f := explore.Replay(spec, path); f != nil {
 			r.Violate(f.Signature, f.Message, v.Replay)
+			fmt.Printf("replay: %s\n  %s\n", f.Signature, f.Message)
+		} else {
+			fmt.Println("replay: no violation on this tree")
 		}
 		r.States, r.Transitions = 1, int64(len(path))
 		r.Sample(map[string]interface{}{"scenario": name, "path": path})
@@ -457,9 +497,7 @@ func (e *env) scenarios() []scenario {
 		mk("no-feegranter/rich", true, false, true, rich, rich, -1, 3),
 		mk("configured/no-balance", true, true, true, 0, 0, 0, 1),
 	}
-	if e.thorough {
-		out = append(out, mk("configured/F1-rich-F2-poor", true, true, true, rich, 3, -1, 4))
-	}
+	out = append(out, mk("configured/F1-rich-F2-poor", true, true, true, rich, 3, -1, 4))
 	return out
 }
 
@@ -483,19 +521,40 @@ func canonAccount(a sdk.AccountI) string {
 	}
 }
 
+// authCanon is the canonical form of all accounts: (address, kind, vesting
+// schedule); account number, sequence and public key are dropped.
 func (e *env) authCanon(ctx sdk.Context) string {
-	var rows []string
-	e.w.App.AccountKeeper.IterateAccounts(ctx, func(a sdk.AccountI) bool {
-		rows = append(rows, canonAccount(a))
-		return false
-	})
-	sort.Strings(rows)
-	return strings.Join(rows, "\n")
+	st := ctx.MultiStore().GetKVStore(e.w.App.GetKey(authtypes.StoreKey))
+	it := storetypes.KVStorePrefixIterator(st, authtypes.AddressStoreKeyPrefix.Bytes())
+	defer it.Close()
+	h := sha256.New()
+	for ; it.Valid(); it.Next() {
+		v := it.Value()
+		c, ok := e.memo[string(v)]
+		if !ok {
+			var acc sdk.AccountI
+			must(e.w.App.AppCodec().UnmarshalInterface(v, &acc))
+			c = canonAccount(acc)
+			e.memo[string(v)] = c
+		}
+		h.Write([]byte(c))
+		h.Write([]byte{'\n'})
+	}
+	return hex.EncodeToString(h.Sum(nil)[:16])
 }
 
 // digest is what "changes nothing" observes.
 func (e *env) digest(ctx sdk.Context) string {
 	return e.w.StoreDigest(ctx, "bank", "feegrant", palomatypes.StoreKey) + "|" + e.authCanon(ctx)
+}
+
+// nodeDigest is the digest of a node's state (cached on the ledger by hash).
+func (e *env) nodeDigest(n *explore.Node) string {
+	g := n.Ghost.(*ghost)
+	if g.dg == "" {
+		g.dg = e.digest(n.Ctx)
+	}
+	return g.dg
 }
 
 func (e *env) cursor(ctx sdk.Context) uint64 {
@@ -505,7 +564,7 @@ func (e *env) cursor(ctx sdk.Context) uint64 {
 }
 
 func (e *env) hash(n *explore.Node) string {
-	return fmt.Sprintf("%s|%s|%d|%d", n.Ghost.Key(), e.digest(n.Ctx), e.cursor(n.Ctx), n.Ctx.BlockTime().Unix())
+	return fmt.Sprintf("%s|%s|%d|%d", n.Ghost.Key(), e.nodeDigest(n), e.cursor(n.Ctx), n.Ctx.BlockTime().Unix())
 }
 
 func (e *env) name(addr string) string {
@@ -696,6 +755,15 @@ func (e *env) withFaults(ctx *sdk.Context, g *ghost, run runner) *explore.Fail {
 			f = e.invariant(&explore.Node{Ctx: c, Ghost: gc})
 		}
 		if f != nil {
+			// prefer the plain classification when the un-faulted operation fails as well
+			c2, g2 := world.Fork(*ctx), g.Clone().(*ghost)
+			f2 := run(&c2, g2, false)
+			if f2 == nil {
+				f2 = e.invariant(&explore.Node{Ctx: c2, Ghost: g2})
+			}
+			if f2 != nil {
+				return f2
+			}
 			f.Signature += "!fault@" + site
 			f.Message = fmt.Sprintf("with collaborator call %d (%s) failing: %s", i, site, f.Message)
 			return f
@@ -723,8 +791,14 @@ func (e *env) ops(n *explore.Node) []explore.Op {
 	w := e.w
 	g0 := n.Ghost.(*ghost)
 	var ops []explore.Op
+	// digest of the state the operations start from (votes of a sale do not touch it)
+	pre := e.nodeDigest(n)
 	add := func(label string, do func(ctx *sdk.Context, g *ghost) *explore.Fail) {
-		ops = append(ops, explore.Op{Label: label, Do: func(ctx *sdk.Context, gg explore.Ghost) *explore.Fail { return do(ctx, gg.(*ghost)) }})
+		ops = append(ops, explore.Op{Label: label, Do: func(ctx *sdk.Context, gg explore.Ghost) *explore.Fail {
+			g := gg.(*ghost)
+			g.dg = ""
+			return do(ctx, g)
+		}})
 	}
 	fresh1Used := w.App.AccountKeeper.HasAccount(n.Ctx, e.clients[0].Addr)
 	targets := []*world.Actor{e.clients[0]}
@@ -736,16 +810,20 @@ func (e *env) ops(n *explore.Node) []explore.Op {
 	// --- direct licence creation
 	for _, fd := range e.F {
 		for _, c := range targets {
-			for _, amt := range e.amounts {
-				for _, mo := range e.months {
-					fd, c, amt, mo := fd, c, amt, mo
+			pairs := e.al.create
+			if w.App.AccountKeeper.HasAccount(n.Ctx, c.Addr) {
+				pairs = e.al.reject
+			}
+			for _, pr := range pairs {
+				{
+					fd, c, amt, mo := fd, c, pr.amt, pr.mo
 					add(fmt.Sprintf("AddLicence(%s,%s,%d,%dmo)", fd.Name, c.Name, amt, mo), func(ctx *sdk.Context, g *ghost) *explore.Fail {
 						msg := &palomatypes.MsgAddLightNodeClientLicense{Metadata: world.Meta(fd), ClientAddress: c.Addr.String(),
 							Amount: sdk.NewInt64Coin(world.BondDenom, amt), VestingMonths: mo}
 						return e.withFaults(ctx, g, func(ctx *sdk.Context, g *ghost, faulty bool) *explore.Fail {
 							hadAcc := w.App.AccountKeeper.HasAccount(*ctx, c.Addr)
 							_, lerr := w.App.PalomaKeeper.GetLightNodeClientLicense(*ctx, c.Addr.String())
-							pre, preBal := e.digest(*ctx), e.bal(*ctx, fd.Addr)
+							preBal := e.bal(*ctx, fd.Addr)
 							var err error
 							if faulty {
 								err = e.faultyMsg(*ctx, func(cc sdk.Context, s palomatypes.MsgServer) error {
@@ -763,7 +841,7 @@ func (e *env) ops(n *explore.Node) []explore.Op {
 								if !faulty {
 									e.cnt["direct_rejected"]++
 								}
-								if e.digest(*ctx) != pre {
+								if g.dg = e.digest(*ctx); g.dg != pre {
 									return explore.Failf("failed-op-changed-state:AddLicence", "rejected licence creation (%v) changed bank / account / feegrant / paloma state: %s", err, e.describe(*ctx))
 								}
 								return nil
@@ -791,10 +869,21 @@ func (e *env) ops(n *explore.Node) []explore.Op {
 	}
 
 	// --- sale reported by the bridge
+	type saleP struct {
+		amt      int64
+		contract string
+	}
+	var sales []saleP
+	for _, a := range e.al.sale {
+		sales = append(sales, saleP{a, saleContract})
+	}
+	for _, a := range e.al.saleOther {
+		sales = append(sales, saleP{a, otherContract})
+	}
 	for _, c := range targets {
-		for _, amt := range e.amounts {
-			for _, contract := range []string{saleContract, otherContract} {
-				c, amt, contract := c, amt, contract
+		for _, sp := range sales {
+			{
+				c, amt, contract := c, sp.amt, sp.contract
 				cn := map[string]string{saleContract: "authorised", otherContract: "other"}[contract]
 				add(fmt.Sprintf("SaleQuorum(%s,%d,%s)", c.Name, amt, cn), func(ctx *sdk.Context, g *ghost) *explore.Fail {
 					g.Nonce++
@@ -809,7 +898,6 @@ func (e *env) ops(n *explore.Node) []explore.Op {
 					return e.withFaults(ctx, g, func(ctx *sdk.Context, g *ghost, faulty bool) *explore.Fail {
 						hadAcc := w.App.AccountKeeper.HasAccount(*ctx, c.Addr)
 						_, lerr := w.App.PalomaKeeper.GetLightNodeClientLicense(*ctx, c.Addr.String())
-						pre := e.digest(*ctx)
 						preBal := []int64{e.bal(*ctx, e.F[0].Addr), e.bal(*ctx, e.F[1].Addr)}
 						if faulty {
 							w.SkywayEnd(*ctx, &e.fSkyway)
@@ -819,7 +907,7 @@ func (e *env) ops(n *explore.Node) []explore.Op {
 						if cur := e.cursor(*ctx); cur != g.Nonce {
 							return explore.Failf("harness-cursor", "sale event %d voted by all validators but last observed nonce is %d", g.Nonce, cur)
 						}
-						if e.digest(*ctx) == pre {
+						if g.dg = e.digest(*ctx); g.dg == pre {
 							if !faulty {
 								e.cnt["sales_without_effect"]++
 							}
@@ -895,7 +983,6 @@ func (e *env) ops(n *explore.Node) []explore.Op {
 			}
 			msg := &palomatypes.MsgRegisterLightNodeClient{Metadata: md}
 			return e.withFaults(ctx, g, func(ctx *sdk.Context, g *ghost, faulty bool) *explore.Fail {
-				pre := e.digest(*ctx)
 				T := ctx.BlockTime()
 				preBal := map[string]int64{}
 				for _, c := range e.clients {
@@ -918,7 +1005,7 @@ func (e *env) ops(n *explore.Node) []explore.Op {
 					if !faulty {
 						e.cnt["register_rejected"]++
 					}
-					if e.digest(*ctx) != pre {
+					if g.dg = e.digest(*ctx); g.dg != pre {
 						return explore.Failf("failed-op-changed-state:Register", "rejected activation (%v) changed bank / account / feegrant / paloma state: %s", err, e.describe(*ctx))
 					}
 					return nil
@@ -982,14 +1069,16 @@ func (e *env) ops(n *explore.Node) []explore.Op {
 	for _, c := range e.clients {
 		c := c
 		add(fmt.Sprintf("Auth(%s)", c.Name), func(ctx *sdk.Context, g *ghost) *explore.Fail {
-			pre := e.digest(*ctx)
-			preNoPaloma := e.w.StoreDigest(*ctx, "bank", "feegrant") + e.authCanon(*ctx)
+			preNoPaloma := ""
+			if _, isClient := g.Act[c.Name]; isClient {
+				preNoPaloma = e.w.StoreDigest(*ctx, "bank", "feegrant") + e.authCanon(*ctx)
+			}
 			res := w.DeliverTx(*ctx, []*world.Actor{c}, &palomatypes.MsgAuthLightNodeClient{Metadata: world.Meta(c)})
 			if res.Stage == "build" {
 				return explore.Failf("harness", "tx build: %v", res.Err)
 			}
 			if !res.OK() {
-				if e.digest(*ctx) != pre {
+				if g.dg = e.digest(*ctx); g.dg != pre {
 					return explore.Failf("failed-op-changed-state:Auth", "rejected authentication (%v) changed state: %s", res.Err, e.describe(*ctx))
 				}
 				return nil
